@@ -223,6 +223,16 @@ ANCHOR_CLASSES = {
 }
 
 
+# module-level functions the rules anchor in (canonical qualified names); one that was moved to another module of the same package is found by its name there
+ANCHOR_FUNCS = [
+    "repid.connections.redis.utils.qnc", "repid.connections.redis.utils.mnc", "repid.connections.redis.utils.parse_message_name", "repid.connections.redis.utils.parse_short_message_name",
+    "repid.connections.redis.utils.full_message_name_from_short", "repid.connections.redis.utils.get_queue_marker", "repid.connections.redis.utils.wait_timestamp",
+    "repid.connections.redis.utils.unix_time", "repid.connections.redis.utils.get_priorities_order", "repid.connections.rabbitmq.utils.qnc", "repid.connections.rabbitmq.utils.wait_until",
+    "repid.connections.in_memory.utils.wait_until", "repid._asyncify.asyncify", "repid.serializer.default_serializer", "repid.retry_policy.default_retry_policy_factory",
+    "repid._utils.get_dependency.get_dependency",
+]
+
+
 class Program:
     def __init__(self, repo: str = REPO) -> None:
         self.repo = repo
@@ -274,6 +284,15 @@ class Program:
             if f"{cmod}.{name}" in self.classes:
                 continue
             cands = [c for c in self.classes.values() if c.name == name and c.qualname == f"{c.module.name}.{name}"]
+            if len(cands) == 1:
+                relocs[cands[0].qualname] = cmod
+        for canon in ANCHOR_FUNCS:
+            if canon in self.functions:
+                continue
+            cmod, name = canon.rsplit(".", 1)
+            pkg = cmod.rsplit(".", 1)[0]
+            cands = [f for f in self.functions.values() if f.name == name and f.cls is None and f.parent is None and f.qualname == f"{f.module.name}.{name}"
+                     and (f.module.name == pkg or f.module.name.startswith(pkg + "."))]
             if len(cands) == 1:
                 relocs[cands[0].qualname] = cmod
         if relocs:
@@ -333,7 +352,7 @@ class Program:
                 elif isinstance(st, ast.ClassDef):
                     self._index_class(m, st, prefix=self._reloc.get(f"{m.name}.{st.name}", m.name))
                 elif isinstance(st, (ast.FunctionDef, ast.AsyncFunctionDef)):
-                    fi = self._index_function(m, st, None, None, f"{m.name}.{st.name}")
+                    fi = self._index_function(m, st, None, None, f"{self._reloc.get(f'{m.name}.{st.name}', m.name)}.{st.name}")
                     # keep the last definition (overloads precede the implementation)
                     m.functions[st.name] = fi
                 elif isinstance(st, ast.Assign):
